@@ -53,6 +53,9 @@ enum Fault {
     Hold { host: usize, at: u64, len: u64 },
     /// hold the link, partition it while SYNs may be held, then repair + release
     HoldThenPartition { host: usize, at: u64, len1: u64, len2: u64 },
+    /// hold the link, `repair` it while requests are parked (the state becomes healthy, the
+    /// parked messages stay parked), then release: the parked requests must move again
+    HoldThenRepair { host: usize, at: u64, len: u64, gap: u64 },
 }
 
 #[derive(Clone, Debug)]
@@ -347,6 +350,7 @@ fn gen(seed: u64) -> Scn {
             0 => Fault::Partition { host: r.range(1, nhosts as u64 - 1) as usize, at: r.range(0, horizon / tick_ms), len: r.range(1, 40), oneway: r.below(3) as u8 },
             1 => Fault::Hold { host: r.range(1, nhosts as u64 - 1) as usize, at: r.range(0, horizon / tick_ms), len: r.range(1, 30) },
             2 => Fault::HoldThenPartition { host: r.range(1, nhosts as u64 - 1) as usize, at: r.range(0, horizon / tick_ms), len1: r.range(1, 20), len2: r.range(1, 20) },
+            3 => Fault::HoldThenRepair { host: r.range(1, nhosts as u64 - 1) as usize, at: r.range(0, horizon / tick_ms), len: r.range(1, 20), gap: r.range(0, 3) },
             _ => Fault::None,
         }
     } else {
@@ -506,6 +510,17 @@ fn scenario(s: Scn) -> ScenarioOut {
                         sim.release(hname(*host), hname(0));
                     }
                 }
+                Fault::HoldThenRepair { host, at, len, gap } => {
+                    if k == *at {
+                        sim.hold(hname(*host), hname(0));
+                    }
+                    if k == at + len {
+                        sim.repair(hname(*host), hname(0));
+                    }
+                    if k == at + len + gap {
+                        sim.release(hname(*host), hname(0));
+                    }
+                }
                 Fault::None => {}
             }
             k += 1;
@@ -534,6 +549,7 @@ fn scenario(s: Scn) -> ScenarioOut {
             Fault::Partition { .. } => "partition",
             Fault::Hold { .. } => "hold",
             Fault::HoldThenPartition { .. } => "hold+partition",
+            Fault::HoldThenRepair { .. } => "hold+repair",
         },
         if s.min_ms == s.max_ms { "fixed" } else { "ranged" }
     );
@@ -792,6 +808,28 @@ fn scenario(s: Scn) -> ScenarioOut {
     }
     // per-connector verdicts
     let grace = 2u64;
+    // first step from which a held (never partitioned) link is healthy again
+    let released_from = match s.fault {
+        Fault::Hold { at, len, .. } => Some(at + len + 1),
+        Fault::HoldThenRepair { at, len, gap, .. } => Some(at + len + gap + 1),
+        _ => None,
+    };
+    // requests parked by the hold (sent while it lasted) that moved again after the release
+    let window = match s.fault {
+        Fault::Hold { host, at, len } => Some((host, at, at + len, false)),
+        Fault::HoldThenRepair { host, at, len, gap } => Some((host, at, at + len + gap, true)),
+        _ => None,
+    };
+    if let Some((fh, from, to, repaired)) = window {
+        for (id, c) in conns.iter().enumerate() {
+            if s.conns[id].host == fh && c.sent_step > from && c.sent_step < to && !matches!(c.state, CState::InFlight | CState::NotSent) {
+                out.count("syns_parked_by_hold_processed_after_release", 1);
+                if repaired && c.sent_step < to.saturating_sub(match s.fault { Fault::HoldThenRepair { gap, .. } => gap, _ => 0 }) {
+                    out.count("syns_parked_across_repair_processed_after_release", 1);
+                }
+            }
+        }
+    }
     for (id, c) in conns.iter().enumerate() {
         let tgt = s.conns[id].target;
         let ok = matches!(c.ret, Some((_, _, Ok(_))));
@@ -844,6 +882,20 @@ fn scenario(s: Scn) -> ScenarioOut {
                     _ => "its SYN was never handed to the destination host",
                 };
                 must_refuse(why, c.sent_step + max_steps + 1, &mut out);
+            }
+            CState::InFlight
+                if released_from.is_some()
+                    && listener_returned_step.is_none()
+                    && (tgt == Target::Listener || tgt == Target::DeadPort)
+                    && s.conns[id].host != 0
+                    && c.sent_step > 0
+                    && c.sent_step.max(released_from.unwrap()) + max_steps + 3 + grace < last_step =>
+            {
+                // the link was held for a while and released (never partitioned): from the
+                // release on it is healthy, so a request parked by the hold, or sent later, is
+                // handed to the destination within the latency bound counted from then
+                out.count("requests_never_processed_after_release", 1);
+                must_refuse("its SYN was never handed to the destination host although the held link had been released", c.sent_step.max(released_from.unwrap()) + max_steps + 1, &mut out);
             }
             CState::InFlight | CState::Queued => {
                 if ok {
@@ -968,6 +1020,6 @@ fn fin() -> Finish<'static> {
             "prompt = within 2 steps of the deciding wire/API event".into(),
         ],
         min_distinct: 100,
-        required_counters: vec!["syns_in_flight_at_partition", "held_syns_at_partition", "connects_accepted", "refusals_observed", "cancelled_connectors_skipped_by_accept", "syns_dropped_by_partition", "nonces_matched", "final_count_samples", "give_up_flood_scenarios", "port_wrap_scenarios", "port_wrap_scenarios_with_resetting_acceptor", "requests_refused_because_the_address_pair_is_still_in_use"],
+        required_counters: vec!["syns_in_flight_at_partition", "held_syns_at_partition", "connects_accepted", "refusals_observed", "cancelled_connectors_skipped_by_accept", "syns_dropped_by_partition", "nonces_matched", "final_count_samples", "give_up_flood_scenarios", "port_wrap_scenarios", "port_wrap_scenarios_with_resetting_acceptor", "requests_refused_because_the_address_pair_is_still_in_use", "syns_parked_by_hold_processed_after_release", "syns_parked_across_repair_processed_after_release"],
     }
 }
